@@ -50,6 +50,18 @@ def collections(tier):
             for inc in (False, True):
                 accept = (len(dl) > 0 and not mixed and n_rc == 1 and n_rd <= 1 and (inc or n_rd == 1))
                 yield dl, inc, accept, {'rc': n_rc, 'rd': n_rd, 'other': n_other, 'mixed': mixed, 'shape': shape}
+        if n_rc == 1 and not two_ids:
+            # acceptance is a matter of counts and IDs only: whatever the roCreate looks like inside (no roSlug, nothing
+            # but the roID, metadata after the stories, stories without IDs, no story at all, unparseable timing)
+            variants = [(lay, to_text(gens.make_ro(['A', 'B'], message_id=1, layout=lay))) for lay in ('nometa', 'bare', 'noids', 'decoys', 'dupstories')]
+            variants.append(('nostories', to_text(gens.make_ro([], message_id=1, layout='nometa'))))
+            variants.append(('badtiming', to_text(gens.make_ro(['A'], message_id=1, ed_start='not a time', timing='all'))))
+            variants.append(('blankslug', to_text(gens.make_ro(['A'], message_id=1)).replace('<roSlug>Slug</roSlug>', '<roSlug />')))
+            for lay, rc_doc in variants:
+                dl = [rc_doc] + docs[1:]
+                for inc in (False, True):
+                    accept = n_rd <= 1 and (inc or n_rd == 1)
+                    yield dl, inc, accept, {'rc': n_rc, 'rd': n_rd, 'other': n_other, 'mixed': False, 'shape': 'rc-' + lay}
         if n_rc == 1 and not two_ids and len(docs) >= 2:
             # running-order IDs that are blank: the same blank ID everywhere is one running order, a blank one among
             # others is a second one; a message without any roID tag is not schema-shaped (no claim, model comparison only)
